@@ -141,3 +141,6 @@ sys.exit(1 if bad else 0)
 for _w in ("manifest", "list"):
     register(Unit(P, f"FALLBACK/read_manifest_{'file' if _w == 'manifest' else 'list_file'}", h_reader_fallback(_w),
                   functions=[f"file_manager:FileManager.read_manifest_{'file' if _w == 'manifest' else 'list_file'}"], replay=_replay_fallback))
+
+from contracts import helpers as _HLP  # noqa: E402
+_HLP.register_under("C14", ["HELPER/verify_checksum", "HELPER/_get_current_schema", "HELPER/metadata-file-io"])
